@@ -7,11 +7,17 @@ from . import c03, c04
 PROP = "C06"
 
 
+USER_QUERIES = ("core::iter::traits::exact_size::ExactSizeIterator::len", "core::iter::traits::iterator::Iterator::size_hint")
+
+
 def nobb(e):
     """Expression with call-site block numbers erased (two calls of a pure getter on the same value compare equal)."""
     if not isinstance(e, tuple):
         return e
     if e and e[0] == "call":
+        if e[1] in USER_QUERIES and len(e) > 5:
+            # what a user iterator reports is not a pure getter: two calls are two (possibly different) answers
+            return ("call", e[1], e[2], tuple(nobb(a) for a in e[3]), e[4], e[5])
         return ("call", e[1], e[2], tuple(nobb(a) for a in e[3]), e[4])
     if e and e[0] == "addr":
         return nobb(e[1])
@@ -208,6 +214,13 @@ def rule_init(ctx, rep, only=None, scope=None):
                         fp = _field_path_of(d, t, data_name)
                         if fp is not None:
                             writes.setdefault(fp, []).append((bi, "write", t2))
+                        else:
+                            from .. import fillloop as _fl
+
+                            d = _fl.slot_iter_parts(F, B, t2)[0]  # `ptr::write(slot.as_mut_ptr(), v)` for `slot` in the slice
+                            fp = _field_path_of(nobb(d), t, data_name) if d is not None else None
+                            if fp is not None and _in_cycle(B, bi):
+                                writes.setdefault(fp, []).append((bi, "slot-write", t2, d))
                     elif copy_args(t2) is not None:
                         d = nobb(symx.expr(F, B, copy_args(t2)[1]))
                         fp = _field_path_of(d, t, data_name)
@@ -217,7 +230,7 @@ def rule_init(ctx, rep, only=None, scope=None):
                         # `for slot in (*p).data.slice.iter_mut() { slot.write(v) }`: the destination is the slice walked
                         from .. import fillloop as _fl
 
-                        d = _fl.slot_iter_place(F, B, t2)
+                        d = _fl.slot_iter_parts(F, B, t2)[0]
                         fp = _field_path_of(nobb(d), t, data_name) if d is not None else None
                         if fp is not None and _in_cycle(B, bi):
                             writes.setdefault(fp, []).append((bi, "slot-write", t2, d))
